@@ -3,9 +3,9 @@ from lib import core, propgen
 from harness.oracles import all as ALL
 
 ID = 'C07'
-UNITS = ['event_metrics', 'note_matching', 'transcription_scores', 'melody_metrics', 'multipitch_metrics', 'tempo_detection', 'alignment_scores']
+UNITS = ['event_metrics', 'note_matching', 'transcription_scores', 'melody_metrics', 'multipitch_metrics', 'tempo_detection', 'alignment_scores', 'beat_q']
 TRANSLATORS = []
-NOT_COVERED = 'Cemgil <= best-level Cemgil, CML <= AML and continuous <= total (beat module in progress) are covered by the oracle only.'
+NOT_COVERED = 'all listed nested pairs are theorems.'
 ASSUMPTIONS = ['exact-arithmetic lattices for the correspondence (DESIGN.md section 2.1); NumPy/SciPy primitives as modelled per module']
 
 oracle_search = propgen.budgeted([ALL.for_property(ID)])
@@ -29,6 +29,6 @@ REFUTED = []
 MANIFEST = {
     'text': 'Monotonicity theorems from max_size_mono (windows; onset/pitch/offset tolerances; strict subset of non-strict; with offsets <= without <= onset-only; velocity subset of plain; multipitch raw <= chroma), the folding lemma |d - 1200 floor(d/1200 + 1/2)| <= |d| (raw pitch <= raw chroma), melody tolerance monotonicity, tempo tolerance and both => one, alignment window.',
     'design_ref': 'DESIGN.md section 6, C07',
-    'level_note': 'Trusted: Coq kernel + vm_compute; correspondence harness per modelled metric; NumPy/SciPy primitives as modelled. ' + 'Cemgil <= best-level Cemgil, CML <= AML and continuous <= total (beat module in progress) are covered by the oracle only.',
+    'level_note': 'Trusted: Coq kernel + vm_compute; correspondence harness per modelled metric; NumPy/SciPy primitives as modelled. ' + 'all listed nested pairs are theorems.',
     'technique': 'Coq proof on Gallina models of the task metrics (maximum-matching size lemmas, exact rational arithmetic); model/code correspondence by vm_compute',
 }
